@@ -22,6 +22,7 @@ func run(c *drv.Ctx) error {
 		"hostile: format byte 0..255 x tail length 0..16 x 4 fills (CRC fixed up where the format carries one), lz4 size prefixes / snappy lengths incl. 0, 1, 2^31, 2^32-1, colour and gray JPEG values, " +
 		"mutated valid envelopes with recomputed or absent CRC, random blobs; each offered with exact and with spare slice capacity to DeserializeData(true/false) and Deserialize(gob into 3 types); " +
 		"distinct by content; non-trivial when the value passes the header+checksum stage so its bytes reach a decoder")
+	c.Rule("stored: keyvalue instances for Compression {none,snappy,lz4,gzip} x Checksum {crc32,none}; 4 payloads through each write route (POST key, POST keyvalues); per stored value: envelope checksum kind equals the instance setting, GET returns the written bytes, and (crc32) three single-bit alterations of stored payload bytes are answered with an error or the original bytes")
 	c.Assume("corruption oracle is the literal one: error OR bytes identical to the original (gzip header fields that gzip ignores; the envelope drops its own CRC for gzip by design and relies on gzip's CRC32+length)")
 	c.Assume("with uncompress=false and gzip, the bytes handed back are judged by what a reference gunzip makes of them (error or original payload)")
 	c.Assume("truncation to zero bytes is not judged: the empty byte string is the legal encoding of the empty payload (SerializeData returns it for every format/checksum), no envelope can tell the two apart; it is counted in the evidence")
@@ -61,5 +62,10 @@ func run(c *drv.Ctx) error {
 			return e
 		}
 	}
-	return nil
+	// the envelope where it is used: what keyvalue instances store for every write route
+	bin, err := c.Build("dvidw", "")
+	if err != nil {
+		return err
+	}
+	return stored(c, bin)
 }
